@@ -43,6 +43,7 @@ def jobs(tier, seed):
     else:
         add(['fixed', 'fixed', 'fixed', 'hop2'], [0, 1, 1, 0], 3)
         add(['hop1', 'fixed', 'fixed', 'fixed'], [1, 0, 1, 0], 1)
+    add(['untuned', 'untuned'], [0, 1], 0); add(['untuned', 'fixed', 'untuned'], [1, 1, 0], 0); add(['fixed', 'untuned'], [0, 0], 0)
     add(['rehop2', 'fixed'], [0, 1], 0); add(['fixed', 'rehop2'], [1, 1], 0); add(['rehop1', 'hop2'], [1, 0], 1)
     if tier == 'thorough': add(['rehop3', 'rehop2', 'fixed'], [1, 0, 1], 0)
     return out
@@ -60,7 +61,10 @@ def h_route(ctx, kinds, vers, src):
             p = 't%d.' % i
             t.running = True if i == src else ctx.bool(p + 'running')
             t.rf_muted = ctx.bool(p + 'muted')
-            if kind == 'fixed':
+            if kind == 'untuned':
+                # running without ever having been tuned: a child powered on through its parent
+                model.append(('untuned',))
+            elif kind == 'fixed':
                 t._rx_freq = ctx.int(p + 'rx', 0, F); t._tx_freq = ctx.int(p + 'tx', 0, F)
                 model.append(('fixed', t._rx_freq, t._tx_freq))
             else:
@@ -81,6 +85,7 @@ def h_route(ctx, kinds, vers, src):
 
         def freq(i, which):
             md = model[i]
+            if md[0] == 'untuned': return None
             if md[0] == 'fixed': return md[1 + which]
             _, hsn, maio, ma = md
             mai = mai_ref(m.fn, hsn, maio, len(ma))
@@ -92,7 +97,7 @@ def h_route(ctx, kinds, vers, src):
         for j in range(n):
             if j == src: continue
             sent = datagrams(trx[j].data_if.sock)
-            match = band(trx[j].running, eq(freq(j, 0), txf))
+            match = band(trx[j].running, eq(freq(j, 0), txf)) if (txf is not None and freq(j, 0) is not None) else False       # an untuned side is on no frequency
             muted = bor(trx[src].rf_muted, trx[j].rf_muted)
             ctx.check('r%d:at-most-one' % j, len(sent) <= 1, n=len(sent))
             if len(sent) == 1:
